@@ -142,8 +142,8 @@ def run(ctx: Ctx) -> None:
     ctx.floor("C11.R6", analysis_rule(ctx, "C11.R6", ("hops",)), 16, "model grammar x mode")
     from .labelmodel import label_rule
     ctx.rule("C11.R7", "whole programs: relabel_nodes_of_trees interpreted on every model program of depth <= 3; every node's count, "
-                       "distance, weighted size and type index equal an independent traversal (default depth mode)")
-    ctx.floor("C11.R7", label_rule(ctx, "C11.R7"), 4, "creation model grammars")
+                       "distance, weighted size and type index equal an independent traversal (both depth modes)")
+    ctx.floor("C11.R7", label_rule(ctx, "C11.R7"), 8, "creation model grammars x depth mode")
     ctx.rule("C11.R1", "every program returned by a representation entry point has passed through relabel_nodes")
     ctx.rule("C11.R2", "children enumeration reaches list elements: no tautologically shadowed branch, no TYPE_CHECKING-only name at run time")
     ctx.rule("C11.R3", "every relabel_nodes call passes is_list = isinstance(node, list)")
